@@ -430,6 +430,21 @@ def _not_first_part(ctx, fi, cmp):
     if len(cmp.ops) != 1:
         return False
     op, a, b = cmp.ops[0], cmp.left, cmp.comparators[0]
+    if isinstance(op, ast.IsNot) and isinstance(a, ast.Name) and isinstance(b, ast.Name):
+        # `part is not first`, part walking a chain that starts at first: part = first ... part = part.<link>
+        for x, y in ((a, b), (b, a)):
+            starts, steps, other = 0, 0, 0
+            for n in ctx.own_nodes(fi):
+                if isinstance(n, ast.Assign) and any(isinstance(t, ast.Name) and t.id == x.id for t in n.targets):
+                    if isinstance(n.value, ast.Name) and n.value.id == y.id:
+                        starts += 1
+                    elif isinstance(n.value, ast.Attribute) and isinstance(n.value.value, ast.Name) and n.value.value.id == x.id:
+                        steps += 1
+                    else:
+                        other += 1
+            if starts >= 1 and steps >= 1 and other == 0:
+                return True
+        return False
     if isinstance(a, ast.Constant) and isinstance(b, ast.Name):
         flip = {ast.Lt: ast.Gt, ast.LtE: ast.GtE, ast.NotEq: ast.NotEq}.get(type(op))
         if flip is None:
